@@ -459,9 +459,24 @@ class Fn:
         """guards() normalised: negations and __builtin_expect / casts stripped:
         [(atom_expr, polarity, block)]."""
         res = []
-        for cond, pol, b in self.guards(pos, extra_edges):
+        seen = set()
+
+        def add(cond, pol, b):
             a, p = normalize_cond(cond, pol)
+            # clang reports the *whole* condition for the last operand of a chain of logical
+            # operators: (X && Y) true => X true and Y true; (X || Y) false => X false and Y false.
+            if isinstance(a, dict) and a.get("k") == "bin" and ((a.get("op") == "&&" and p) or (a.get("op") == "||" and not p)):
+                add(a.get("l"), p, b)
+                add(a.get("r"), p, b)
+                return
+            key = (a.get("sid") if isinstance(a, dict) else id(a), p)
+            if key in seen:
+                return
+            seen.add(key)
             res.append((a, p, b))
+
+        for cond, pol, b in self.guards(pos, extra_edges):
+            add(cond, pol, b)
         return res
 
     # ---- path queries ----------------------------------------------------------------------
